@@ -32,6 +32,15 @@ def as_int(x, scale):
 
 
 def observe_case(a, th, tracked, sample_lists, cmap, tmap, tscale, rng):
+    """total: an exception of the library while a valid tree sequence is being observed is itself an observation"""
+    try:
+        return observe_case_(a, th, tracked, sample_lists, cmap, tmap, tscale, rng)
+    except Exception as e:
+        import traceback
+        return dict(error="%s: %s" % (type(e).__name__, str(e)[:200]), tb=traceback.format_exc()[-1500:], ts=a, th=th, tracked=list(tracked))
+
+
+def observe_case_(a, th, tracked, sample_lists, cmap, tmap, tscale, rng):
     tables = gen.build_tables(a, cmap, tmap)
     if rng.random() < 0.4:
         gen.add_user_flags(tables, rng)      # user flag bits never matter
@@ -179,6 +188,10 @@ def run():
         cases.append(observe_case(a, th, tracked, rng.random() < 0.5, gen.CMap(rng.choice(gen.CMap.KINDS)), tm, sc, rng))
     # binding self-test
     import copy
+    for c in [c for c in cases if "error" in c]:
+        chk.note_case(dict(ts=c["ts"], th=c["th"], tr=c["tracked"]), True)
+        chk.violation("observing a valid tree sequence raised: %s\n%s" % (c["error"], c["tb"]), c)
+    cases = [c for c in cases if "error" not in c]
     corrupted = []
     for c in cases[:60]:
         if len(c["trees"]) < 2 or len(c["ts"]["edges"]) < 2:
